@@ -274,10 +274,64 @@ PatternCases ==
                   IF he THEN <<SPrint(<<S(<<c_e>>), V("NR"), V("NF"), Fld(N(0))>>)>> ELSE <<>>, <<>>)]
    : inp \in Inputs3, p1 \in Patterns, p2 \in Patterns, hb \in BOOLEAN, he \in BOOLEAN, nb \in BOOLEAN, nx \in BOOLEAN}
 
+\* -------------------------------------------------------------- F-misc
+\* delete, `in` on a local array, bare exit / return, bare-regex patterns, printf / sprintf,
+\* sub / gsub on each kind of target (with and without a match), builtins
+ReB == Plus(Lit(c_b))                         \* b+
+ReAB == Alt(Lit(c_a), Cat(Lit(c_a), Lit(c_b)))  \* a|ab   (leftmost-longest picks ab)
+SubTargets == {"var", "field", "elem", "lelem", "dollar0", "default"}
+SubCase(gl, re, rp, tk, subject) ==
+  LET tgt == CASE tk = "var" -> V("x") [] tk = "field" -> Fld(N(2)) [] tk = "elem" -> Idx("a", S(<<c_k>>))
+               [] tk = "lelem" -> Idx("A", S(<<c_k>>)) [] OTHER -> Fld(N(0))
+      setup == CASE tk \in {"var", "elem", "lelem"} -> <<SExpr(Asg(tgt, S(subject)))>>
+                 [] tk = "field" -> <<SExpr(Asg(Fld(N(0)), S(<<c_z, SP, SP>> \o subject \o <<SP, c_y>>)))>>
+                 [] OTHER -> <<SExpr(Asg(Fld(N(0)), S(subject \o <<SP, SP, c_y>>)))>>
+      body == setup \o <<SPrint(<<Subst(gl, re, S(rp), tgt)>>), SPrint(<<tgt>>), SPrint(<<Fld(N(0)), V("NF")>>)>>
+  IN [fam |-> "misc", mech |-> "subst/" \o tk \o (IF gl THEN "/gsub" ELSE "/sub"), input |-> <<>>, variants |-> <<>>,
+      prog |-> IF tk = "lelem"
+               THEN Prog(<<SExpr(Call("f", <<V("a")>>)), SPrint(<<Idx("a", S(<<c_k>>))>>)>>, <<>>, <<>>, <<Func("f", <<AParam("A")>>, body)>>)
+               ELSE BeginOnly(body)]
+MiscCases ==
+  {SubCase(gl, re, rp, tk, subject)
+   : gl \in BOOLEAN, re \in {ReB, ReAB}, rp \in {<<c_q>>, <<LBRK, AMP, RBRK>>, <<BSL, AMP, AMP>>, <<>>},
+     tk \in SubTargets, subject \in {<<c_a, c_b, c_b, c_a, c_b>>, <<c_c, c_c>>, <<>>}} \cup
+  {[fam |-> "misc", mech |-> "misc/" \o nm, prog |-> pg, variants |-> vs, input |-> inp] : <<nm, pg, vs, inp>> \in {
+    <<"delete-element-and-all",
+      BeginOnly(<<SExpr(Bi("split", <<S(<<c_a, SP, c_b, SP, c_c>>), V("a")>>)), SDel("a", N(2)), SPrint(<<Bi("alength", <<V("a")>>), InA(N(2), "a"), InA(N(3), "a")>>),
+                  SDel("a", V("u")), SDel("a", NoE), SPrint(<<Bi("alength", <<V("a")>>), InA(N(1), "a")>>)>>), <<>>, <<>> >>,
+    <<"delete-in-local-array",
+      Prog(<<SExpr(Bi("split", <<S(<<c_a, SP, c_b>>), V("a")>>)), SPrint(<<Call("f", <<V("a")>>)>>), SPrint(<<Bi("alength", <<V("a")>>), InA(N(1), "a")>>)>>, <<>>, <<>>,
+           <<Func("f", <<AParam("A"), Param("r")>>, <<SExpr(Asg(V("r"), Cc(InA(N(1), "A"), InA(N(5), "A")))), SDel("A", N(1)),
+                                                     SRet(Cc(V("r"), Cc(InA(N(1), "A"), Bi("alength", <<V("A")>>))))>>)>>), <<>>, <<>> >>,
+    <<"bare-exit-in-begin", Prog(<<T1(<<c_b>>), SExit(NoE), T1(<<c_x>>)>>, <<Rule(NoE, <<T1(<<c_r>>)>>)>>, <<T1(<<c_e>>)>>, <<>>), <<>>, << <<c_x>> >> >>,
+    <<"exit-status-then-bare-exit-in-end", Prog(<<>>, <<Rule(NoE, <<SExit(N(4))>>)>>, <<T1(<<c_e>>), SExit(NoE), T1(<<c_x>>)>>, <<>>), <<>>, << <<c_x>>, <<c_y>> >> >>,
+    <<"exit-in-function", Prog(<<SExpr(Call("f", <<>>)), T1(<<c_x>>)>>, <<>>, <<T1(<<c_e>>)>>, <<Func("f", <<>>, <<T1(<<c_g>>), SExit(N(2)), T1(<<c_y>>)>>)>>), <<>>, <<>> >>,
+    <<"exit-in-end-replaces-status", Prog(<<SExit(N(1))>>, <<>>, <<SExit(N(5))>>, <<>>), <<>>, <<>> >>,
+    <<"bare-return", Prog(<<SExpr(Asg(V("x"), Call("f", <<N(1)>>))), SPrint(<<Cc(S(<<LBRK>>), Cc(V("x"), S(<<RBRK>>)))>>)>>, <<>>, <<>>,
+                          <<Func("f", <<Param("p")>>, <<SIf(V("p"), <<SRet(NoE)>>, <<>>), SRet(N(9))>>)>>), <<>>, <<>> >>,
+    <<"bare-regex-pattern-and-condition",
+      Prog(<<>>, <<RuleNoBody(Re0(ReB)), Rule(Re0(ReAB), <<SPrint(<<S(<<c_m>>), V("NR")>>)>>),
+                   Rule(NoE, <<SIf(Un("!", Re0(ReB)), <<SPrint(<<S(<<c_n>>), V("NR")>>)>>, <<>>), SPrint(<<Cnd(Re0(ReB), S(<<c_y>>), S(<<c_n>>))>>)>>)>>, <<>>, <<>>),
+      << Prog(<<>>, <<RuleNoBody(Mat(Fld(N(0)), ReB)), Rule(Mat(Fld(N(0)), ReAB), <<SPrint(<<S(<<c_m>>), V("NR")>>)>>),
+                      Rule(NoE, <<SIf(NMat(Fld(N(0)), ReB), <<SPrint(<<S(<<c_n>>), V("NR")>>)>>, <<>>), SPrint(<<Cnd(Mat(Fld(N(0)), ReB), S(<<c_y>>), S(<<c_n>>))>>)>>)>>, <<>>, <<>>) >>,
+      << <<c_a, c_b, c_b>>, <<c_c>>, <<c_a>>, <<>> >> >>,
+    <<"printf-and-sprintf",
+      BeginOnly(<<SPrintf(<<S(<<LBRK, PCT, c_d, RBRK, PCT, D5, c_s, BAR, PCT, MINUS, D4, c_d, BAR, PCT, PCT, LF>>), S(<<D4, D2, c_a>>), S(<<c_a, c_b>>), N(7)>>),
+                  SExpr(Asg(V("x"), Bi("sprintf", <<S(<<PCT, c_s, MINUS, PCT, D3, c_d>>), N(12), S(<<D5>>)>>))), SPrint(<<V("x"), Bi("length", <<V("x")>>)>>),
+                  SPrintf(<<S(<<c_a, c_b, LF>>)>>), SPrintf(<<S(<<PCT, c_d, LF>>)>>), T1(<<c_x>>)>>), <<>>, <<>> >>,
+    <<"builtins",
+      BeginOnly(<<SExpr(Asg(Fld(N(0)), S(REC3))),
+                  SPrint(<<Bi("length", <<>>), Bi("length", <<Fld(N(3))>>), Bi("length", <<N(12345)>>), Bi("substr", <<Fld(N(3)), N(2)>>), Bi("substr", <<S(<<c_a, c_b, c_c, c_d>>), N(2), N(2)>>),
+                           Bi("substr", <<S(<<c_a, c_b>>), N(3), N(5)>>), Bi("index", <<S(<<c_a, c_b, c_c, c_b, c_c>>), S(<<c_b, c_c>>)>>), Bi("index", <<Fld(N(3)), S(<<c_z>>)>>),
+                           Bi("int", <<S(<<D4, D2, c_a>>)>>), Bi("int", <<Un("-", N(7))>>)>>),
+                  SPrint(<<Bi("split", <<S(<<c_a, COLON, c_b, COLON>>), V("a"), S(<<COLON>>)>>), Idx("a", N(1)), Idx("a", N(3)), Bi("alength", <<V("a")>>)>>),
+                  SPrint(<<Bi("split", <<S(<<SP, c_a, SP, SP, c_b>>), V("a"), S(<<SP>>)>>), Idx("a", N(1)), Bi("split", <<S(<<>>), V("a")>>), Bi("alength", <<V("a")>>)>>)>>), <<>>, <<>> >>
+  }}
+
 Cases(fm) ==
   CASE fm = "assign" -> AssignCases [] fm = "cond" -> CondCases [] fm = "loop" -> LoopCases
     [] fm = "concat" -> ConcatCases [] fm = "call" -> CallCases [] fm = "const" -> ConstCases
-    [] fm = "pattern" -> PatternCases [] fm = "flow" -> FlowCases
+    [] fm = "pattern" -> PatternCases [] fm = "flow" -> FlowCases [] fm = "misc" -> MiscCases
 
 AllCases == UNION {Cases(fm) : fm \in Families}
 
